@@ -88,8 +88,14 @@ def observe_file(ctx, path, *, polygons=True, raw_attrs=True):
 def decode_missing(values, attrs, encoding=None):
     """float64 array with NaN where the variable says 'missing' (NaN, _FillValue, missing_value)."""
     arr = numpy.asarray(values)
-    if arr.dtype.kind == 'M':
-        return arr
+    if arr.dtype.kind == 'M' and (attrs is None or 'standard_name' in attrs):
+        return arr            # a time *coordinate*: compared as datetimes
+    if arr.dtype.kind in 'Mm':
+        # datetime64 / timedelta64 *data*: seconds (since 2000-01-01 for datetimes), NaT -> NaN
+        nat = numpy.isnat(arr)
+        base = arr.astype('datetime64[s]') - numpy.datetime64('2000-01-01T00:00:00', 's') if arr.dtype.kind == 'M' else arr.astype('timedelta64[s]')
+        out = base.astype('int64').astype('float64')
+        return numpy.where(nat, numpy.nan, out)
     out = arr.astype('float64')
     for src in (attrs or {}), (encoding or {}):
         for key in ('_FillValue', 'missing_value'):
@@ -118,8 +124,13 @@ def arrays_equal_nan(a, b):
     b = numpy.asarray(b)
     if a.shape != b.shape:
         return False
-    if a.dtype.kind == 'M' or b.dtype.kind == 'M':
-        return bool(numpy.array_equal(a.astype('datetime64[ns]'), b.astype('datetime64[ns]')))
+    if a.dtype.kind in 'Mm' or b.dtype.kind in 'Mm':
+        if a.dtype.kind != b.dtype.kind:
+            return False
+        unit = 'datetime64[ns]' if a.dtype.kind == 'M' else 'timedelta64[ns]'
+        a, b = a.astype(unit), b.astype(unit)
+        na, nb = numpy.isnat(a), numpy.isnat(b)
+        return bool(numpy.array_equal(na, nb) and numpy.array_equal(a[~na], b[~nb]))
     try:
         return bool(numpy.array_equal(a.astype('float64'), b.astype('float64'), equal_nan=True))
     except (TypeError, ValueError):
